@@ -1619,11 +1619,101 @@ def r03_10(ctx, counts) -> RuleResult:
     return res
 
 
+# --------------------------------------------------------------------------------------------
+# R03.11 document text fed to a datatype constructor
+# --------------------------------------------------------------------------------------------
+DOC_ATTRS = {'text', 'tail', 'attrib', 'name', 'namespace', 'tag', 'node_name'}
+DOC_CALLS = {'etree_iter_strings', 'get_namespace', 'split_expanded_name'}
+NOT_DOC_RECEIVERS = ('self', 'self.parser', 'cls', 'token', 'self.parser.schema')
+
+
+def r03_11(ctx, counts) -> RuleResult:
+    model: Model = ctx.model
+    cg: CallGraph = ctx.memo('callgraph', lambda: CallGraph(model, ctx.reg))
+    dyn, par = ctx.memo('phases', lambda: cg.phases())
+    res = RuleResult(
+        'R03.11', 'DOCUMENT-TEXT-TO-CONSTRUCTOR',
+        'Text that comes from the input document or from the caller-supplied context — element '
+        'text/tail/attributes (etree_iter_strings, .text, .tail, .attrib), node names and '
+        'namespaces (.name, .namespace, .tag, .node_name, split_expanded_name) — is '
+        'unvalidated (ElementTree accepts any string as a tag). In the dynamic-phase code of the function layers, a call of a datatype '
+        'class of elementpath.datatypes (their constructors raise ValueError/TypeError for text '
+        'outside the lexical space) whose first argument derives from such text is inside a try '
+        'with a handler for ValueError.')
+    n = 0
+    for f in sorted(dyn, key=lambda q: q.key):
+        if f.module.name.startswith(('elementpath.datatypes', 'elementpath.regex',
+                                     'elementpath.xpath_nodes', 'elementpath.tree_builders',
+                                     'elementpath.decoder', 'elementpath.schema_proxy')):
+            continue
+
+        def doc_derived(e: ast.AST, names: set[str]) -> bool:
+            for x in ast.walk(e):
+                if isinstance(x, ast.Attribute) and x.attr in DOC_ATTRS and \
+                        dotted(x.value) not in NOT_DOC_RECEIVERS and \
+                        not dotted(x.value).startswith('self['):
+                    return True     # (self[i]… are token operands, validated by the parser)
+                if isinstance(x, ast.Call) and dotted(x.func).split('.')[-1] in DOC_CALLS:
+                    return True
+                if isinstance(x, ast.Name) and x.id in names:
+                    return True
+            return False
+        def names_before(line: int) -> set[str]:
+            names: set[str] = set()
+            for _ in range(2):
+                for st in walk_local(f.node):
+                    if isinstance(st, (ast.Assign, ast.AnnAssign)) and st.value is not None and \
+                            st.lineno < line and doc_derived(st.value, names):
+                        tg = st.targets[0] if isinstance(st, ast.Assign) else st.target
+                        for x in ast.walk(tg):
+                            if isinstance(x, ast.Name):
+                                names.add(x.id)
+            return names
+        emap = None
+        for call in walk_local(f.node):
+            if not isinstance(call, ast.Call) or not call.args or \
+                    not isinstance(call.func, (ast.Name, ast.Attribute)):
+                continue
+            kind, val = model.resolve_expr(f.module, call.func)
+            if kind != 'class' or not isinstance(val, ClassInfo) or \
+                    not val.module.name.startswith('elementpath.datatypes'):
+                continue
+            names = names_before(call.lineno)
+            if not any(doc_derived(a, names) for a in call.args):
+                continue
+            n += 1
+            if emap is None:
+                emap = enclosing_map(f.node)
+            caught = False
+            for enc in emap[id(call)]:
+                if isinstance(enc, ast.Try) and any(any(y is call for y in ast.walk(b))
+                                                    for b in enc.body):
+                    for h in enc.handlers:
+                        if {x.split('.')[-1] for x in handler_names(model, f.module, h)} & \
+                                {'ValueError', 'Exception', 'BaseException'}:
+                            caught = True
+            res.instances.append(f'{f.key}: {stmt_text(call)[:50]} guarded={caught}')
+            if caught:
+                res.ok()
+            else:
+                res.fail(finding('R03.11', f, call, f'{stmt_text(call)[:50]}',
+                                 f'`{stmt_text(call)[:60]}` builds a {val.name} from text of the '
+                                 f'input document/context outside any handler for ValueError: '
+                                 f'text outside the lexical space of the type (an element in the '
+                                 f'namespace "http://[x", <boolean>maybe</boolean>) escapes as a '
+                                 f'bare ValueError'))
+    counts['doc_text_constructor_sites'] = n
+    if n < 5:
+        raise AnalysisError(f'only {n} document-text constructor sites located')
+    return res
+
+
 def run(ctx) -> dict:
     counts: dict[str, int] = {}
     results = [r03_1(ctx, counts), r03_2(ctx, counts), r03_3(ctx, counts), r03_4(ctx, counts),
                r03_5(ctx, counts), r03_6(ctx, counts), r03_7(ctx, counts),
-               r03_8(ctx, counts), r03_9(ctx, counts), r03_10(ctx, counts)]
+               r03_8(ctx, counts), r03_9(ctx, counts), r03_10(ctx, counts),
+               r03_11(ctx, counts)]
     # "no call hangs": the lock discipline of C19 is a necessary condition (a lock left held on
     # an error path blocks every later evaluation that needs it)
     from . import c19_global
